@@ -43,7 +43,8 @@ def gen_text(rnd, allow_undef, chunks=1):
         elif k < 0.56:
             lines.append(rnd.choice(["jmp *%rax", "call *%rax"]))
         elif k < 0.62:
-            lines.append(rnd.choice([f"lea {t}(%rip), %rax", f"mov {t}@GOTPCREL(%rip), %rax", f"mov {t}+4(%rip), %eax"]))
+            lines.append(rnd.choice([f"lea {t}(%rip), %rax", f"mov {t}@GOTPCREL(%rip), %rax", f"mov {t}+4(%rip), %eax",
+                                     f"movl $1, {t}(%rip)", f"movw $3, {t}(%rip)", f"cmpb $7, {t}+4(%rip)"]))
         elif k < 0.70:
             lines.append(rnd.choice([".byte 1", ".byte 1, 2, 3", ".long 7", ".zero 3"]))
         elif k < 0.76:
